@@ -13,7 +13,7 @@ import (
 
 // C10 — positional arguments bind in declaration order.
 
-var c10Scalars = []*decl.Type{decl.TString, decl.TInt, decl.TUpper, decl.TMapSI}
+var c10Scalars = []*decl.Type{decl.TString, decl.TInt, decl.TShout, decl.TMapSI} // Shout: a string kind whose only method is a pointer-receiver Unmarshaler
 
 // the int field at an odd position of a layout carries base:"8" (so "7" converts, "-3" converts, "10" would be 8)
 func c10Base(t *decl.Type, pos int) string {
@@ -251,7 +251,7 @@ func init() {
 		Level:      "model_checking",
 		ShardDepth: 5,
 		Body:       body,
-		Rule: "positional layouts: every sequence of 0..3 scalar fields over {string, int, Unmarshaler, map[string]int} (an int field at an odd position carries base:\"8\") x trailing slice {none, []string, []int, []*string (parser-owned layouts with a pass-through option)} x owner {parser, command, both (the same layout on each)} x {None, PassDoubleDash, PassAfterNonOption, both} x {tags, API} " +
+		Rule: "positional layouts: every sequence of 0..3 scalar fields over {string, int, a string kind whose only method is a pointer-receiver Unmarshaler, map[string]int} (an int field at an odd position carries base:\"8\") x trailing slice {none, []string, []int, []*string (parser-owned layouts with a pass-through option), []uint8 (parser-owned layouts)} x owner {parser, command, both (the same layout on each)} x {None, PassDoubleDash, PassAfterNonOption, both} x {tags, API} " +
 			"x every sequence of <= 4 units (<= 3 for layouts of two or three fields, PassAfterNonOption and both-owner declarations; thorough: one more everywhere, 6 for parser-owned layouts built through the API with PassDoubleDash) over {w, 7, -3, 010 (ten, or eight where the field says base 8), --str= (the empty value, attached), k:1, a quoted 7 (with its quotes: a positional is taken verbatim), -v, -s val, -2 (a declared flag with a digit as short name), --, -x, cmd}; oracle = CLM positional queue (field values after conversion, overflow into remaining arguments); beside that, four hand-built declarations (two positional-args structs on one parser; an unexported field between exported ones; the positional-args struct and a command behind nil pointers; the positional-args tag spelled y / 1 / true instead of yes, compared with the yes spelling on every vector of <= 4 tokens over {n, -v, 3, r}); after every accepted vector the public Args() list must still be the declared one and, for layouts without a slice, a second parse of the same vector on the same parser must bind the same fields",
 		Assumptions:  []string{"conversion of the alphabet's tokens is taken from the conversion model (checked against the library by C11)"},
 		RequiredHits: []string{"compared", "three-or-more-bound", "after-terminator", "conversion-fault", "second-parse"},
